@@ -233,7 +233,8 @@ fn exec(verb: &str, items: &[Sexp], o: &mut Oracle) -> Option<String> {
             if let Some(e) = expect {
                 let want = match e { Sexp::Atom(s) => s.clone(), l => { let mut s = String::new(); fn p(x: &Sexp, s: &mut String) { match x { Sexp::Atom(a) => s.push_str(a), Sexp::List(l) => { s.push('('); for (i, y) in l.iter().enumerate() { if i > 0 { s.push(' '); } p(y, s); } s.push(')'); } } } p(l, &mut s); s } };
                 let got = if out.starts_with("ok ") { out[3..].rsplit_once(' ').map(|x| x.0.to_string()).unwrap_or_default() } else { out.clone() };
-                if got != want { o.fail(items.iter().rev().next().and_then(|x| x.atom()).filter(|t| t.starts_with('C')).unwrap_or("C02"), format!("emitted {}::{} under {}: got {} want {}", doc, ty, proto.name(), got, want)); }
+                let same = got == want || (want == "err" && (got == "err" || got == "depth"));
+                if !same { o.fail(items.iter().rev().next().and_then(|x| x.atom()).filter(|t| t.starts_with('C')).unwrap_or("C02"), format!("emitted {}::{} under {}: got {} want {}", doc, ty, proto.name(), got, want)); }
             }
             Some(out)
         }
